@@ -1,13 +1,477 @@
 // libs mode: json / xml / protobuf / thrift codecs are thin delegations to libraries; their
-// round trip is a tested contract (oracle only, no model run).
+// round trip and panic-freedom are a tested contract (oracle only, no model run).  The
+// repository's own logic here is the dispatch on nil / struct{} / *struct{} / other types.
 package main
 
 import (
+	"context"
+	"fmt"
+	"math"
+	"math/rand"
+	"reflect"
+	"strings"
+	"unicode/utf8"
+
 	. "verifharness/hlib"
+
+	"git.apache.org/thrift.git/lib/go/thrift"
+	"github.com/henrylee2cn/erpc/v6/codec"
+	"github.com/henrylee2cn/erpc/v6/proto/pbproto/pb"
 )
 
+// ---- value families (exported fields only; strings restricted per codec) ----
+
+type LScalars struct {
+	S   string
+	B   bool
+	I   int
+	I8  int8
+	I16 int16
+	I32 int32
+	I64 int64
+	U   uint
+	U8  uint8
+	U16 uint16
+	U32 uint32
+	U64 uint64
+	F32 float32
+	F64 float64
+}
+
+type LInner struct {
+	X  int
+	Ys []string
+}
+
+type LJSON struct {
+	Sc  LScalars
+	Ss  []string
+	Is  []int64
+	Us  []uint64
+	Fs  []float64
+	Bs  []bool
+	By  []byte
+	A3  [3]int16
+	AS  [2]string
+	In  LInner
+	Ins []LInner
+	P   *LInner
+	M   map[string]int
+}
+
+type LXML struct {
+	Sc  LScalars
+	Ss  []string
+	Is  []int64
+	Us  []uint64
+	Fs  []float64
+	Bs  []bool
+	In  LInner
+	Ins []LInner
+}
+
+// TRec is a hand-written thrift struct (binary protocol): 1:string 2:i32 3:i64 4:bool 5:binary 6:list<i64> 7:double
+type TRec struct {
+	S  string
+	I  int32
+	L  int64
+	B  bool
+	Bi []byte
+	Li []int64
+	D  float64
+}
+
+func (p *TRec) Write(o thrift.TProtocol) error {
+	if err := o.WriteStructBegin("TRec"); err != nil {
+		return err
+	}
+	w := func(name string, t thrift.TType, id int16, f func() error) error {
+		if err := o.WriteFieldBegin(name, t, id); err != nil {
+			return err
+		}
+		if err := f(); err != nil {
+			return err
+		}
+		return o.WriteFieldEnd()
+	}
+	if err := w("s", thrift.STRING, 1, func() error { return o.WriteString(p.S) }); err != nil {
+		return err
+	}
+	if err := w("i", thrift.I32, 2, func() error { return o.WriteI32(p.I) }); err != nil {
+		return err
+	}
+	if err := w("l", thrift.I64, 3, func() error { return o.WriteI64(p.L) }); err != nil {
+		return err
+	}
+	if err := w("b", thrift.BOOL, 4, func() error { return o.WriteBool(p.B) }); err != nil {
+		return err
+	}
+	if err := w("bi", thrift.STRING, 5, func() error { return o.WriteBinary(p.Bi) }); err != nil {
+		return err
+	}
+	if err := w("li", thrift.LIST, 6, func() error {
+		if err := o.WriteListBegin(thrift.I64, len(p.Li)); err != nil {
+			return err
+		}
+		for _, x := range p.Li {
+			if err := o.WriteI64(x); err != nil {
+				return err
+			}
+		}
+		return o.WriteListEnd()
+	}); err != nil {
+		return err
+	}
+	if err := w("d", thrift.DOUBLE, 7, func() error { return o.WriteDouble(p.D) }); err != nil {
+		return err
+	}
+	if err := o.WriteFieldStop(); err != nil {
+		return err
+	}
+	return o.WriteStructEnd()
+}
+
+func (p *TRec) Read(in thrift.TProtocol) error {
+	if _, err := in.ReadStructBegin(); err != nil {
+		return err
+	}
+	for {
+		_, ft, id, err := in.ReadFieldBegin()
+		if err != nil {
+			return err
+		}
+		if ft == thrift.STOP {
+			break
+		}
+		switch {
+		case id == 1 && ft == thrift.STRING:
+			p.S, err = in.ReadString()
+		case id == 2 && ft == thrift.I32:
+			p.I, err = in.ReadI32()
+		case id == 3 && ft == thrift.I64:
+			p.L, err = in.ReadI64()
+		case id == 4 && ft == thrift.BOOL:
+			p.B, err = in.ReadBool()
+		case id == 5 && ft == thrift.STRING:
+			p.Bi, err = in.ReadBinary()
+		case id == 6 && ft == thrift.LIST:
+			var et thrift.TType
+			var n int
+			et, n, err = in.ReadListBegin()
+			if err == nil && et != thrift.I64 {
+				err = fmt.Errorf("bad list element type")
+			}
+			if err == nil {
+				p.Li = make([]int64, 0, 8)
+				for i := 0; i < n; i++ {
+					var x int64
+					if x, err = in.ReadI64(); err != nil {
+						break
+					}
+					p.Li = append(p.Li, x)
+				}
+			}
+			if err == nil {
+				err = in.ReadListEnd()
+			}
+		case id == 7 && ft == thrift.DOUBLE:
+			p.D, err = in.ReadDouble()
+		default:
+			err = in.Skip(ft)
+		}
+		if err != nil {
+			return err
+		}
+		if err = in.ReadFieldEnd(); err != nil {
+			return err
+		}
+	}
+	return in.ReadStructEnd()
+}
+
+var _ = context.Background
+
+// ---- generators ----
+
+func utf8String(r *rand.Rand, xmlSafe bool) string {
+	for {
+		s := genString(r)
+		if !utf8.ValidString(s) {
+			s = strings.ToValidUTF8(s, "?")
+		}
+		if xmlSafe {
+			var b strings.Builder
+			for _, c := range s {
+				// XML 1.0 Char minus CR (normalised by parsers) and minus U+FFFD (escape target)
+				if c == 0x9 || c == 0xA || (c >= 0x20 && c <= 0xD7FF) || (c >= 0xE000 && c < 0xFFFD) || (c >= 0x10000 && c <= 0x10FFFF) {
+					b.WriteRune(c)
+				}
+			}
+			s = b.String()
+		}
+		return s
+	}
+}
+
+func genFloat(r *rand.Rand, bits int) float64 {
+	var f float64
+	switch r.Intn(10) {
+	case 0:
+		f = 0
+	case 1:
+		f = math.MaxFloat64
+	case 2:
+		f = math.SmallestNonzeroFloat64
+	case 3:
+		f = -1.5
+	case 4:
+		f = 1e21
+	case 5:
+		f = 1e-7
+	case 6:
+		f = float64(r.Int63())
+	default:
+		f = math.Float64frombits(r.Uint64())
+	}
+	if bits == 32 {
+		switch {
+		case r.Intn(8) == 0:
+			f = math.MaxFloat32
+		case r.Intn(8) == 0:
+			f = math.SmallestNonzeroFloat32
+		default:
+			f = float64(math.Float32frombits(r.Uint32()))
+		}
+	}
+	if math.IsNaN(f) || math.IsInf(f, 0) {
+		f = 0.25
+	}
+	if bits == 32 {
+		f = float64(float32(f))
+		if math.IsInf(f, 0) {
+			f = 0.5
+		}
+	}
+	return f
+}
+
+// fillLib fills v like fillAny but with floats, maps and codec-appropriate strings.
+func fillLib(v reflect.Value, r *rand.Rand, xmlSafe bool, depth int) {
+	switch v.Kind() {
+	case reflect.String:
+		v.SetString(utf8String(r, xmlSafe))
+	case reflect.Float32:
+		v.SetFloat(genFloat(r, 32))
+	case reflect.Float64:
+		v.SetFloat(genFloat(r, 64))
+	case reflect.Struct:
+		for i := 0; i < v.NumField(); i++ {
+			fillLib(v.Field(i), r, xmlSafe, depth+1)
+		}
+	case reflect.Slice:
+		n := genLen(r)
+		if depth > 1 && n > 6 {
+			n = 3
+		}
+		if n == 0 {
+			v.Set(reflect.Zero(v.Type()))
+			return
+		}
+		s := reflect.MakeSlice(v.Type(), n, n)
+		for i := 0; i < n; i++ {
+			fillLib(s.Index(i), r, xmlSafe, depth+1)
+		}
+		v.Set(s)
+	case reflect.Array:
+		for i := 0; i < v.Len(); i++ {
+			fillLib(v.Index(i), r, xmlSafe, depth+1)
+		}
+	case reflect.Ptr:
+		if r.Intn(3) == 0 {
+			v.Set(reflect.Zero(v.Type()))
+			return
+		}
+		p := reflect.New(v.Type().Elem())
+		fillLib(p.Elem(), r, xmlSafe, depth+1)
+		v.Set(p)
+	case reflect.Map:
+		n := r.Intn(4)
+		if n == 0 {
+			v.Set(reflect.Zero(v.Type()))
+			return
+		}
+		m := reflect.MakeMap(v.Type())
+		for i := 0; i < n; i++ {
+			m.SetMapIndex(reflect.ValueOf(utf8String(r, xmlSafe)), reflect.ValueOf(r.Intn(100)-50))
+		}
+		v.Set(m)
+	default:
+		fillAny(v, r, depth)
+	}
+}
+
+// canon prints a value element-wise: nil and empty slices/maps are identified, floats by bits.
+func canon(v reflect.Value) string {
+	switch v.Kind() {
+	case reflect.Float32, reflect.Float64:
+		return fmt.Sprintf("f%x", math.Float64bits(v.Float()))
+	case reflect.Struct:
+		var b strings.Builder
+		b.WriteString("{")
+		for i := 0; i < v.NumField(); i++ {
+			if v.Type().Field(i).PkgPath != "" || strings.HasPrefix(v.Type().Field(i).Name, "XXX_") {
+				continue
+			}
+			b.WriteString(v.Type().Field(i).Name + ":" + canon(v.Field(i)) + " ")
+		}
+		return b.String() + "}"
+	case reflect.Slice, reflect.Array:
+		var b strings.Builder
+		b.WriteString("[")
+		for i := 0; i < v.Len(); i++ {
+			b.WriteString(canon(v.Index(i)) + " ")
+		}
+		return b.String() + "]"
+	case reflect.Ptr:
+		if v.IsNil() {
+			return "nil"
+		}
+		return "&" + canon(v.Elem())
+	case reflect.Map:
+		keys := v.MapKeys()
+		strs := make([]string, 0, len(keys))
+		for _, k := range keys {
+			strs = append(strs, fmt.Sprintf("%q=%s", k.String(), canon(v.MapIndex(k))))
+		}
+		// order-insensitive
+		for i := range strs {
+			for j := i + 1; j < len(strs); j++ {
+				if strs[j] < strs[i] {
+					strs[i], strs[j] = strs[j], strs[i]
+				}
+			}
+		}
+		return "map[" + strings.Join(strs, " ") + "]"
+	case reflect.String:
+		return fmt.Sprintf("%q", v.String())
+	}
+	return fmt.Sprintf("%v", v.Interface())
+}
+
+// ---- one codec family ----
+
+type libFamily struct {
+	name  string
+	c     codec.Codec
+	fresh func(r *rand.Rand) (filled reflect.Value, zero reflect.Value) // pointers
+}
+
 func runLibs(cfg *RunCfg) {
+	r := cfg.Rng
 	st := NewStats("C11", cfg)
-	st.Rule = "libs: placeholder"
+	st.Rule = "libs: per codec {json, xml, protobuf, thrift}: round trip of generated values (ints at width extremes, finite floats incl. max/min/denormal, valid UTF-8 strings (XML: XML chars), slices/arrays/maps/nested/pointers as the library supports) compared element-wise; nil / struct{} / *struct{} / foreign types through the repository's dispatch; random bytes and mutated valid encodings into every destination must yield value or error, never a panic; distinct by (codec, encoded bytes or garbage)"
+	distinct := DistinctSet{}
+	jsonT := []reflect.Type{reflect.TypeOf(LJSON{}), reflect.TypeOf(LScalars{}), reflect.TypeOf(Slices{}), reflect.TypeOf(Arrays{}), reflect.TypeOf(Nested{}), reflect.TypeOf(Named{})}
+	xmlT := []reflect.Type{reflect.TypeOf(LXML{}), reflect.TypeOf(LScalars{}), reflect.TypeOf(LInner{})}
+	mk := func(ts []reflect.Type, xmlSafe bool) func(r *rand.Rand) (reflect.Value, reflect.Value) {
+		return func(r *rand.Rand) (reflect.Value, reflect.Value) {
+			t := ts[r.Intn(len(ts))]
+			v := reflect.New(t)
+			fillLib(v.Elem(), r, xmlSafe, 0)
+			return v, reflect.New(t)
+		}
+	}
+	fams := []libFamily{
+		{"json", codec.JSONCodec{}, mk(jsonT, false)},
+		{"xml", codec.XMLCodec{}, mk(xmlT, true)},
+		{"protobuf", codec.ProtoCodec{}, func(r *rand.Rand) (reflect.Value, reflect.Value) {
+			p := &pb.Payload{Seq: int32(genInt(r, 32)), Mtype: int32(genInt(r, 32)), ServiceMethod: utf8String(r, false),
+				Status: RandBytes(r, genLen(r)), Meta: RandBytes(r, genLen(r)), BodyCodec: int32(genInt(r, 32)), Body: RandBytes(r, genLen(r))}
+			return reflect.ValueOf(p), reflect.ValueOf(&pb.Payload{})
+		}},
+		{"thrift", codec.ThriftCodec{}, func(r *rand.Rand) (reflect.Value, reflect.Value) {
+			t := &TRec{S: genString(r), I: int32(genInt(r, 32)), L: genInt(r, 64), B: r.Intn(2) == 0, Bi: RandBytes(r, genLen(r)), D: genFloat(r, 64)}
+			n := genLen(r)
+			for i := 0; i < n; i++ {
+				t.Li = append(t.Li, genInt(r, 64))
+			}
+			return reflect.ValueOf(t), reflect.ValueOf(&TRec{})
+		}},
+	}
+	for i := 0; i < cfg.N; i++ {
+		f := fams[r.Intn(len(fams))]
+		switch c := r.Intn(10); {
+		case c < 5: // round trip
+			st.Count(f.name + ":roundtrip")
+			v, z := f.fresh(r)
+			human := fmt.Sprintf("%s %s", f.name, canon(v.Elem()))
+			if len(human) > 500 {
+				human = human[:500] + "..."
+			}
+			enc, eo, emsg := guardedMarshal(f.c, v.Interface())
+			if eo != oOK {
+				st.Fail(i, f.name+"-encode", "encoder failed/panicked on a supported value: "+emsg, human)
+				continue
+			}
+			do, dmsg := guardedUnmarshal(f.c, enc, z.Interface())
+			if do == oPanic {
+				st.Fail(i, f.name+"-decode-panic", "decoder panicked on its own encoding: "+dmsg, human)
+			} else if do != oOK || canon(z.Elem()) != canon(v.Elem()) {
+				st.Fail(i, f.name+"-roundtrip", fmt.Sprintf("decode(encode(v)) != v: %s got %s", dmsg, canon(z.Elem())), human)
+			}
+			distinct.Add(f.name + Hx(enc))
+			if len(st.Samples) < 4 {
+				st.Samples = append(st.Samples, fmt.Sprintf("%s -> %d bytes", human, len(enc)))
+			}
+		case c < 9: // garbage
+			var data []byte
+			if r.Intn(2) == 0 {
+				st.Count(f.name + ":garbage-random")
+				data = RandBytes(r, r.Intn(60))
+			} else {
+				st.Count(f.name + ":garbage-mutated")
+				v, _ := f.fresh(r)
+				enc, _, _ := guardedMarshal(f.c, v.Interface())
+				data = mutate(r, enc)
+			}
+			_, z := f.fresh(r)
+			do, dmsg := guardedUnmarshal(f.c, data, z.Interface())
+			if do == oPanic {
+				st.Fail(i, f.name+"-decode-panic", "decoder panicked: "+dmsg, fmt.Sprintf("%s %q", f.name, data))
+			}
+			st.Count(fmt.Sprintf("%s:garbage-outcome-%d", f.name, do))
+			distinct.Add(f.name + "g" + Hx(data))
+		default: // the repository's dispatch: nil, struct{}, *struct{}, foreign type
+			st.Count(f.name + ":dispatch")
+			units := []interface{}{nil, struct{}{}, &struct{}{}}
+			u := units[r.Intn(3)]
+			enc, eo, emsg := guardedMarshal(f.c, u)
+			human := fmt.Sprintf("%s unit value %T", f.name, u)
+			if f.name == "protobuf" || f.name == "thrift" {
+				var empty interface{} = codec.PbEmptyStruct
+				if f.name == "thrift" {
+					empty = codec.ThriftEmptyStruct
+				}
+				want, _, _ := guardedMarshal(f.c, empty)
+				if eo != oOK || string(enc) != string(want) {
+					st.Fail(i, f.name+"-unit", "nil/struct{} is not encoded as the empty message: "+emsg, human)
+				}
+				if do, dmsg := guardedUnmarshal(f.c, RandBytes(r, r.Intn(20)), u); do != oOK {
+					st.Fail(i, f.name+"-unit", "decoding into nil/struct{} is not a no-op: "+dmsg, human)
+				}
+				if _, eo2, _ := guardedMarshal(f.c, 42); eo2 != oErr {
+					st.Fail(i, f.name+"-foreign", "foreign type not refused by Marshal", human)
+				}
+				x := 0
+				if do, _ := guardedUnmarshal(f.c, enc, &x); do != oErr {
+					st.Fail(i, f.name+"-foreign", "foreign type not refused by Unmarshal", human)
+				}
+			} else if eo == oPanic {
+				st.Fail(i, f.name+"-encode", "encoder panicked on "+human, human)
+			}
+		}
+	}
+	st.Evaluations = cfg.N
+	st.DistinctNontrivial = len(distinct)
 	st.Write(cfg, nil)
 }
